@@ -217,7 +217,7 @@ def main():
         with open(casefile, "a") as f: f.write(open(tmp).read())
         os.remove(tmp)
     impl, model, rcs = run_cases(casefile, tag)
-    rep = compare.compare(impl, model, skip_labels=cfg.get("skip_labels", ()), same=[(m["case"], a, b, lab) for m in metas for (a, b, lab) in m.get("same", [])],
+    rep = compare.compare(impl, model, skip_labels=cfg.get("skip_labels", ()), same=[(m["case"],) + tuple(sm) for m in metas for sm in m.get("same", [])], twin_tol=cfg.get("twin_tol"),
                           unchanged_on_reject=cfg.get("unchanged_on_reject", False))
 
     violations = []      # (kind, label, case, why)
